@@ -73,6 +73,10 @@ def check_instant(ctx, t: datetime):
     ref = timeref.jd_float(t)
     ctx.check(abs(float(jd) - ref) <= 1.5e-9, "jd-value", f"JD({t.isoformat()})={float(jd)!r} differs from integer reference {ref!r}",
               wit, mon="conv_value")
+    # an instant with a fractional second converts to the exact rational Julian date too (sub-second part not dropped)
+    tf = t + timedelta(microseconds=(hash((t.toordinal(), t.second, t.minute)) % 999_999) + 1)
+    ctx.check(abs(float(datetimeToJulianDate(tf)) - timeref.jd_float(tf)) <= 1.5e-9, "jd-value-fractional-second",
+              f"JD({tf.isoformat()}) differs from the integer reference by {(float(datetimeToJulianDate(tf)) - timeref.jd_float(tf)) * 86400:.6f} s", {"kind": "instant", "t": t.isoformat()}, mon="conv_value")
     t2 = t + timedelta(seconds=1)
     if t2.year <= 2099:
         jd2 = datetimeToJulianDate(t2)
